@@ -396,7 +396,7 @@ impl Property for C03 {
         "C03"
     }
     fn rule(&self) -> &'static str {
-        "three generators: (garbage) random concatenations of XML token pieces, raw bytes and arbitrary Unicode fed to parse, parse_with_span_info, parse_fragment and parse_bytes; (damage) a generated well-formed rendering (confirmed accepted first) with ONE catalogue edit that makes it ill-formed by construction (mismatched/missing/stray tags, truncation inside markup, second root, top-level text, attribute duplicated as written or via an alias prefix, prefix declared twice, undeclared prefixes, raw '<' / '&', malformed references, references to non-Chars, '--' in comments, malformed PIs, unterminated comment/PI/CDATA, DOCTYPE, version != 1.0, duplicate xml:id); oracle: never a panic; damaged text must be rejected by every entry point for which the edit is ill-formed; whatever is accepted must satisfy the C04 structural invariants, validate_well_formed_document (parse), serialise, reparse and be deep_equal. Non-trivial = (damage) the undamaged text was accepted and the edit applied, (garbage) the input contains at least one start tag. Distinct by hash of the input."
+        "five generators: (bytes-encoded) byte order marks / encoding labels from a catalogue + a generated document encoded as UTF-8/16/32 or single bytes, cut anywhere, fed to parse_bytes; (history) 2-6 inputs through ONE Xot (well-formed text, catalogue edits, text cut while the root is open, probes using a prefix declared only in an earlier input, a plain no-namespace probe): the verdict and the reading may not depend on earlier inputs; (garbage) random concatenations of XML token pieces, raw bytes and arbitrary Unicode fed to parse, parse_with_span_info, parse_fragment and parse_bytes; (damage) a generated well-formed rendering (confirmed accepted first) with ONE catalogue edit that makes it ill-formed by construction (mismatched/missing/stray tags, truncation inside markup, second root, top-level text, attribute duplicated as written or via an alias prefix, prefix declared twice, undeclared prefixes, raw '<' / '&', malformed references, references to non-Chars, '--' in comments, malformed PIs, unterminated comment/PI/CDATA, DOCTYPE, version != 1.0, duplicate xml:id); oracle: never a panic; damaged text must be rejected by every entry point for which the edit is ill-formed; whatever is accepted must satisfy the C04 structural invariants, validate_well_formed_document (parse), serialise, reparse and be deep_equal. Non-trivial = (bytes-encoded) a mark, a label or a non-UTF-8 payload is present, (history) a probe ran after an input that failed with declaring elements still open, (damage) the undamaged text was accepted (and must itself be a sound tree) and the edit applied, (garbage) the input contains at least one start tag. Distinct by hash of the input."
     }
     fn plans(&self, tier: Tier) -> Vec<Plan> {
         let mk = |name: &'static str, cases, variant, max_len| Plan {
@@ -405,8 +405,8 @@ impl Property for C03 {
             knobs: Knobs { max_nodes: 14, variant, ..Default::default() },
         };
         match tier {
-            Tier::Quick => vec![mk("damage", 300_000, 0, 1000), mk("garbage", 200_000, 1, 200), mk("bytes", 60_000, 2, 200), mk("text-soup", 100_000, 3, 200)],
-            Tier::Thorough => vec![mk("damage", 6_000_000, 0, 1000), mk("garbage", 4_000_000, 1, 300), mk("bytes", 1_000_000, 2, 300), mk("text-soup", 3_000_000, 3, 300)],
+            Tier::Quick => vec![mk("damage", 300_000, 0, 1000), mk("garbage", 200_000, 1, 200), mk("bytes", 60_000, 2, 200), mk("text-soup", 100_000, 3, 200), mk("bytes-encoded", 80_000, 4, 600), mk("history", 60_000, 5, 1200)],
+            Tier::Thorough => vec![mk("damage", 6_000_000, 0, 1000), mk("garbage", 4_000_000, 1, 300), mk("bytes", 1_000_000, 2, 300), mk("text-soup", 3_000_000, 3, 300), mk("bytes-encoded", 1_500_000, 4, 600), mk("history", 1_000_000, 5, 1200)],
         }
     }
 
@@ -420,10 +420,19 @@ impl Property for C03 {
                     Err(_) => return Verdict::Pass,
                 };
                 // the undamaged text must be accepted (else the edit proves nothing)
-                let ok = guarded(|| if fragment { xot.parse_fragment(&case.rendered.text).is_ok() } else { xot.parse(&case.rendered.text).is_ok() });
-                if ok != Ok(true) {
-                    ctx.label("undamaged_not_accepted");
-                    return Verdict::Pass; // C02 reports this
+                let ok = guarded(|| if fragment { xot.parse_fragment(&case.rendered.text).ok() } else { xot.parse(&case.rendered.text).ok() });
+                let undamaged_root = match ok {
+                    Ok(Some(r)) => r,
+                    _ => {
+                        ctx.label("undamaged_not_accepted");
+                        return Verdict::Pass; // C02 reports this
+                    }
+                };
+                // what was accepted is a sound tree (rich renderings: shadowed and re-bound prefixes,
+                // CDATA, references, line ends)
+                if let Err(e) = accepted_is_sound(&mut xot, undamaged_root, !fragment) {
+                    ctx.rendering(|| format!("undamaged: {:?}", case.rendered.text));
+                    return Verdict::Fail(format!("{} accepted the well-formed input, but: {}", if fragment { "parse_fragment" } else { "parse" }, e));
                 }
                 let (text, what, scope) = match damage_sure(src, &case) {
                     Some(x) => x,
@@ -454,6 +463,8 @@ impl Property for C03 {
                 }
                 Verdict::Pass
             }
+            5 => self.history(src, ctx),
+            4 => self.bytes_encoded(src, ctx),
             v => {
                 let (text, bytes): (String, Vec<u8>) = if v == 3 {
                     // character-data soup inside one element or one attribute value
@@ -524,6 +535,220 @@ impl Property for C03 {
                     }
                 }
                 Verdict::Pass
+            }
+        }
+    }
+}
+
+fn collect_prefixes(n: &ANode, out: &mut Vec<String>) {
+    if let ANode::Element(e) = n {
+        for (p, _) in &e.decls {
+            if !p.is_empty() && p != "xml" && !out.contains(p) {
+                out.push(p.clone());
+            }
+        }
+    }
+    for c in n.children() {
+        collect_prefixes(c, out);
+    }
+}
+
+fn parse_by(xot: &mut Xot, en: usize, text: &str) -> Result<Result<Node, String>, String> {
+    guarded(|| match en {
+        0 => xot.parse(text).map_err(|e| e.to_string()),
+        1 => xot.parse_with_span_info(text).map(|x| x.0).map_err(|e| e.to_string()),
+        2 => xot.parse_bytes(text.as_bytes()).map_err(|e| e.to_string()),
+        3 => xot.parse_fragment(text).map_err(|e| e.to_string()),
+        _ => xot.parse_fragment_with_span_info(text).map(|x| x.0).map_err(|e| e.to_string()),
+    })
+}
+const ENTRY: [&str; 5] = ["parse", "parse_with_span_info", "parse_bytes", "parse_fragment", "parse_fragment_with_span_info"];
+
+impl C03 {
+    /// plan history: several inputs parsed one after the other by ONE Xot. Whether a text is rejected, and
+    /// what an accepted text denotes, may not depend on what that Xot parsed (or failed to parse) before:
+    /// ill-formed steps (catalogue edits, input that stops while elements are open, names whose prefix is
+    /// declared only in an earlier input) must be rejected at every point of the history, and a plain
+    /// probe document must come out with its names in no namespace.
+    fn history(&self, src: &mut Src, ctx: &mut Ctx) -> Verdict {
+        let case = match make_case(src, &ctx.knobs, false, false, true) {
+            Ok(c) => c,
+            Err(_) => return Verdict::Pass,
+        };
+        let text = &case.rendered.text;
+        {
+            let mut fresh = Xot::new();
+            if guarded(|| fresh.parse(text).is_ok()) != Ok(true) {
+                ctx.label("undamaged_not_accepted");
+                return Verdict::Pass;
+            }
+        }
+        let mut prefixes = vec![];
+        collect_prefixes(&case.rendered.expected, &mut prefixes);
+        let has_default = {
+            fn any_default(n: &ANode) -> bool {
+                matches!(n, ANode::Element(e) if e.decls.iter().any(|(p, u)| p.is_empty() && !u.is_empty())) || n.children().iter().any(any_default)
+            }
+            any_default(&case.rendered.expected)
+        };
+        // positions of a '<' at which the root element is open (after its start tag, up to its end tag)
+        let spans = &case.rendered.spans;
+        let root_start = spans.iter().find(|s| s.kind == ItemKind::ElementStart && s.path.len() == 1);
+        let root_end = root_start.and_then(|st| spans.iter().find(|s| s.kind == ItemKind::ElementEnd && s.path == st.path));
+        let lts: Vec<usize> = match (root_start, root_end) {
+            (Some(st), Some(en)) => text.char_indices().filter(|(i, c)| *c == '<' && *i > st.end && *i <= en.start).map(|(i, _)| i).collect(),
+            _ => vec![],
+        };
+        let mut xot = Xot::new();
+        let steps = 2 + src.choice(5);
+        let mut log: Vec<String> = vec![];
+        let mut failed_open = false;
+        let mut probed_after_open = false;
+        for step in 0..steps {
+            if step > 1 && src.exhausted() {
+                break;
+            }
+            let doc_en = src.choice(3);
+            let (input, must_reject, what): (String, bool, &'static str) = match src.weighted(&[2, 3, 4, 4, 3]) {
+                0 => (text.clone(), false, "undamaged"),
+                1 => match damage_sure(src, &case) {
+                    Some((t, w, _)) => (t, true, w),
+                    None => continue,
+                },
+                2 => {
+                    if lts.is_empty() {
+                        continue;
+                    }
+                    // the input stops between two tokens: at least the root element is still open
+                    let at = lts[src.choice_big(lts.len())];
+                    let head = &text[..at];
+                    // only count it when a start tag has been seen
+                    if !head.contains('<') {
+                        continue;
+                    }
+                    (head.to_string(), true, "input_stops_with_open_elements")
+                }
+                3 => {
+                    if prefixes.is_empty() {
+                        continue;
+                    }
+                    let p = &prefixes[src.choice_big(prefixes.len())];
+                    let t = match src.choice(3) {
+                        0 => format!("<doc><{}:x/></doc>", p),
+                        1 => format!("<{}:doc/>", p),
+                        _ => format!("<doc {}:k=\"v\"/>", p),
+                    };
+                    (t, true, "prefix_declared_only_in_an_earlier_input")
+                }
+                _ => ("<doc k=\"v\"><x/>t</doc>".to_string(), false, "plain_probe"),
+            };
+            log.push(format!("{}({})", ENTRY[doc_en], what));
+            ctx.label(what);
+            let r = parse_by(&mut xot, doc_en, &input);
+            match r {
+                Err(p) => {
+                    ctx.rendering(|| format!("{} | base {:?} | last input {:?}", log.join("; "), text, input));
+                    return Verdict::Fail(format!("step {}: {} panicked: {}", step, ENTRY[doc_en], p));
+                }
+                Ok(Ok(root)) => {
+                    if must_reject {
+                        ctx.rendering(|| format!("{} | base {:?} | last input {:?}", log.join("; "), text, input));
+                        return Verdict::Fail(format!("step {}: {} accepted ill-formed input ({}) after the earlier inputs of this Xot", step, ENTRY[doc_en], what));
+                    }
+                    if let Err(e) = accepted_is_sound(&mut xot, root, true) {
+                        ctx.rendering(|| format!("{} | base {:?} | last input {:?}", log.join("; "), text, input));
+                        return Verdict::Fail(format!("step {}: {} accepted the input ({}), but: {}", step, ENTRY[doc_en], what, e));
+                    }
+                    if what == "plain_probe" {
+                        let want = "#doc[<doc k=\"v\"><x></>T\"t\"</>]";
+                        let got = bridge::read(&xot, root).map(|a| a.show());
+                        if got.as_deref() != Ok(want) {
+                            ctx.rendering(|| format!("{} | base {:?}", log.join("; "), text));
+                            return Verdict::Fail(format!("step {}: the plain probe document was read as {:?} instead of {}", step, got, want));
+                        }
+                        if failed_open {
+                            probed_after_open = true;
+                        }
+                    }
+                }
+                Ok(Err(_)) => {
+                    if what == "input_stops_with_open_elements" {
+                        failed_open = true;
+                    }
+                    if what == "prefix_declared_only_in_an_earlier_input" && failed_open {
+                        probed_after_open = true;
+                    }
+                    if !must_reject && what == "plain_probe" {
+                        ctx.rendering(|| format!("{} | base {:?}", log.join("; "), text));
+                        return Verdict::Fail(format!("step {}: the plain probe document was rejected after the earlier inputs of this Xot", step));
+                    }
+                }
+            }
+        }
+        ctx.fingerprint(&(text, &log));
+        ctx.rendering(|| format!("{} | base {:?}", log.join("; "), text));
+        if probed_after_open && (has_default || !prefixes.is_empty()) {
+            ctx.nontrivial = true;
+            ctx.label("probe_after_failure_with_open_declaring_elements");
+        }
+        Verdict::Pass
+    }
+
+    /// plan bytes-encoded: byte input that reaches the encoding detection of parse_bytes — a byte order
+    /// mark or an encoding declaration from a catalogue, followed by a generated document encoded as
+    /// UTF-8 / UTF-16 / UTF-32 / single bytes, possibly cut at any byte and with a few bytes overwritten.
+    fn bytes_encoded(&self, src: &mut Src, ctx: &mut Ctx) -> Verdict {
+        const BOMS: &[&[u8]] = &[b"", b"\xEF\xBB\xBF", b"\xFF\xFE", b"\xFE\xFF", b"\xFF\xFE\x00\x00", b"\x00\x00\xFE\xFF", b"\xFE\xFF\x00\x00", b"\x00\x00\xFF\xFE", b"\x2B\x2F\x76", b"\xEF\xBB", b"\xFF"];
+        const LABELS: &[&str] = &["", "UTF-8", "utf-16", "UTF-16LE", "UTF-16BE", "UTF-32", "ucs-4", "ISO-8859-1", "windows-1252", "us-ascii", "latin1", "x-user-defined", "replacement", "Shift_JIS", "ISO-2022-JP", "gb18030", "utf-7", "x-unknown", " utf-8", "UTF8", ""];
+        let mut xot = Xot::new();
+        let body = match make_case(src, &ctx.knobs, false, false, false) {
+            Ok(c) => c.rendered.text,
+            Err(_) => "<a>é</a>".to_string(),
+        };
+        let label = LABELS[src.choice(LABELS.len())];
+        let decl = if label.is_empty() { String::new() } else { format!("<?xml version=\"1.0\" encoding=\"{}\"?>", label) };
+        let text = format!("{}{}", decl, body);
+        let bom = BOMS[src.choice(BOMS.len())];
+        let mut bytes: Vec<u8> = bom.to_vec();
+        let enc = src.choice(6);
+        match enc {
+            0 => bytes.extend_from_slice(text.as_bytes()),
+            1 => text.encode_utf16().for_each(|u| bytes.extend_from_slice(&u.to_le_bytes())),
+            2 => text.encode_utf16().for_each(|u| bytes.extend_from_slice(&u.to_be_bytes())),
+            3 => text.chars().for_each(|c| bytes.extend_from_slice(&(c as u32).to_le_bytes())),
+            4 => text.chars().for_each(|c| bytes.extend_from_slice(&(c as u32).to_be_bytes())),
+            _ => text.chars().for_each(|c| bytes.push(if (c as u32) < 256 { c as u32 as u8 } else { b'?' })),
+        }
+        // cut anywhere (odd lengths for the two- and four-byte forms included)
+        if src.ratio(1, 2) && !bytes.is_empty() {
+            let keep = src.choice_big(bytes.len() + 1);
+            bytes.truncate(keep);
+        }
+        let n = src.choice(4);
+        for _ in 0..n {
+            if bytes.is_empty() {
+                break;
+            }
+            let at = src.choice_big(bytes.len());
+            bytes[at] = src.choice(256) as u8;
+        }
+        ctx.fingerprint(&bytes);
+        ctx.label(["enc_utf8", "enc_utf16le", "enc_utf16be", "enc_utf32le", "enc_utf32be", "enc_single_byte"][enc]);
+        ctx.nontrivial = !bom.is_empty() || !label.is_empty() || enc != 0;
+        ctx.rendering(|| format!("{:?}", bytes));
+        let r: Result<Result<Node, String>, String> = guarded(|| xot.parse_bytes(&bytes).map_err(|e| e.to_string()));
+        match r {
+            Err(p) => Verdict::Fail(format!("parse_bytes panicked: {}", p)),
+            Ok(Err(_)) => {
+                ctx.label("rejected");
+                Verdict::Pass
+            }
+            Ok(Ok(root)) => {
+                ctx.label("accepted");
+                match accepted_is_sound(&mut xot, root, true) {
+                    Ok(()) => Verdict::Pass,
+                    Err(e) => Verdict::Fail(format!("parse_bytes accepted the input, but: {}", e)),
+                }
             }
         }
     }
